@@ -562,6 +562,7 @@ func (x *Exec) step(fr *Frame, st *State, in ssa.Instruction) {
 		}
 	case *ssa.Select:
 		fr.regs[n] = x.selectOp(fr, st, n)
+		x.trackRecv(fr, st, n, fr.regs[n].(TupleV))
 	case *ssa.MakeChan:
 		fr.regs[n] = st.alloc()
 	case *ssa.Range:
@@ -814,7 +815,25 @@ func (x *Exec) unop(fr *Frame, st *State, n *ssa.UnOp) Value {
 		}
 		return App("bnot", IntS, t)
 	case token.ARROW:
-		x.fail("channel receive not supported here")
+		// a blocking receive: from a context's Done() channel it returns once the context is cancelled (that it
+		// ever returns is not verified); from any other channel it yields an arbitrary value (senders not modelled)
+		ch, ok := x.val(fr, st, n.X).(*Term)
+		if !ok {
+			x.fail("receive on an unsupported channel value")
+		}
+		et := n.X.Type().Underlying().(*types.Chan).Elem()
+		x.note("blocking receive: assumed to return (liveness not verified)", fr.fn.Name())
+		var v Value
+		if ch.Op == "app" && ch.Name == "donechan" {
+			st.assume(Select(cancelledArr(st), ch.Args[0]))
+			v = zeroValue(et)
+		} else {
+			v = st.fresh(et, "recv")
+		}
+		if n.CommaOk {
+			return TupleV{v, Const(freshName("recvok"), BoolS)}
+		}
+		return v
 	}
 	x.fail("unsupported unary op %s", n.Op)
 	return nil
@@ -1206,6 +1225,49 @@ func (x *Exec) checkCallsites(fr *Frame, st *State, call *ssa.Call) {
 			env.vars[n] = v
 		}
 		g := x.evalClause(env, x.c, "callsite "+cs.Callee+" "+cs.Label, cs.Expr)
+		n0 := len(x.obls)
 		x.check(st, fmt.Sprintf("%scallsite.%s.%s@%d", fr.prefix, cs.Callee, cs.Label, x.ordinal(fr.fn, call, "call")), g, call.Pos())
+		if len(cs.Props) > 0 {
+			for _, o := range x.obls[n0:] {
+				o.Props = cs.Props
+			}
+		}
+	}
+}
+
+
+// trackRecv: `propagates recv` - an error value received from a channel in a select counts as a failed call of the
+// pseudo-callee "recv" (the error a background goroutine reported must not be dropped by the receiver).
+func (x *Exec) trackRecv(fr *Frame, st *State, n *ssa.Select, out TupleV) {
+	if x.c == nil || fr.fn != x.fn {
+		return
+	}
+	tracked := false
+	for _, p := range x.c.Propagates {
+		if p.Label == "recv" {
+			tracked = true
+		}
+	}
+	if !tracked {
+		return
+	}
+	idx := out[0].(*Term)
+	k := 2
+	for i, s := range n.States {
+		if s.Dir != types.RecvOnly {
+			continue
+		}
+		v := out[k]
+		k++
+		ev, ok := v.(IfaceV)
+		if !ok || !types.Identical(s.Chan.Type().Underlying().(*types.Chan).Elem(), types.Universe.Lookup("error").Type()) {
+			continue
+		}
+		cond := And(Eq(idx, IntLit(int64(i))), Not(And(Eq(ev.Tag, IntLit(0)), Eq(ev.Val, IntLit(0)))))
+		cur, _ := st.ghostV[failedKey("recv")].(*Term)
+		if cur == nil {
+			cur = False
+		}
+		st.ghostV[failedKey("recv")] = Or(cur, cond)
 	}
 }
